@@ -85,6 +85,32 @@ def _compare(ctx: Any, hist: Dict[str, Any], sched: Dict[int, str], unfiltered: 
         if to_only_labels.get((e, l)) != rest:
             problems.append(("filter.fraction-labels-depend-on-from-date", {"event": e, "lot": l, "got": rest, "to_only": to_only_labels.get((e, l))}))
             break
+    # fraction labels k/n count all history up to the to-date: recounted here from the unfiltered trace
+    if not inverted:
+        n_event: Dict[int, int] = {}
+        n_lot: Dict[int, int] = {}
+        position: Dict[Tuple[int, Optional[int], int], Tuple[int, Optional[int]]] = {}
+        seen_pairs: Dict[Tuple[int, Optional[int]], int] = {}
+        for f in full:
+            if f.event_ts.date() > hi:
+                continue
+            n_event[f.event] = n_event.get(f.event, 0) + 1
+            if f.lot is not None:
+                n_lot[f.lot] = n_lot.get(f.lot, 0) + 1
+            occurrence = seen_pairs.get((f.event, f.lot), 0)
+            seen_pairs[(f.event, f.lot)] = occurrence + 1
+            position[(f.event, f.lot, occurrence)] = (n_event[f.event], n_lot.get(f.lot) if f.lot is not None else None)
+        seen_pairs = {}
+        for e, l, ke, ne, kl, nl in labels_of(filtered):
+            occurrence = seen_pairs.get((e, l), 0)
+            seen_pairs[(e, l)] = occurrence + 1
+            expected_k = position.get((e, l, occurrence))
+            if expected_k is None:
+                continue
+            expected_label = (expected_k[0], n_event.get(e), expected_k[1], n_lot.get(l) if l is not None else None)
+            if (ke, ne, kl, nl) != expected_label:
+                problems.append(("filter.fraction-labels-do-not-count-history-up-to-to-date", {"event": e, "lot": l, "got": [ke, ne, kl, nl], "expected": list(expected_label)}))
+                break
     expected_yearly = [y for y in yearly_of(to_only) if from_d is None or y[0] >= from_d.year]
     if yearly_of(filtered) != expected_yearly:
         problems.append(("filter.yearly-lines", {"got": str(yearly_of(filtered))[:300], "expected": str(expected_yearly)[:300]}))
@@ -140,6 +166,17 @@ def _observe(ctx: Any, ip: Any, hist: Dict[str, Any], sched: Dict[int, str], win
         case = {"hist": hist, "schedule": sched_json(sched), "windows": [[from_s, to_s]]}
         to_only = ip.run(hist, sched, to_date=to_d) if to_d else base
         filtered = ip.run(hist, sched, from_date=from_d, to_date=to_d)
+        if to_d and to_only.ok:
+            # the history is valid: allowing negative balances changes nothing of what a window shows
+            with_n = ip.run(hist, sched, to_date=to_d, allow_negative=True)
+            ctx.count("executions")
+            ctx.count("windows_also_run_with_negative_balances_allowed")
+            from rpv.drive_inproc import balances_of as _balances, trace_of as _trace
+
+            if not with_n.ok:
+                ctx.violation("filter.valid-history-fails-with-n", {"error": with_n.error[:200], "window": [None, to_s]}, case)
+            elif _balances(with_n.computed) != _balances(to_only.computed) or [f.key() for f in _trace(with_n.computed)] != [f.key() for f in _trace(to_only.computed)]:
+                ctx.violation("filter.to-date-view-depends-on-n-for-a-valid-history", {"window": [None, to_s], "balances_with_n": str(_balances(with_n.computed))[:300], "balances_without": str(_balances(to_only.computed))[:300]}, case)
         ctx.count("executions", 2)
         ctx.count("valid_cases", 2)
         if not to_only.ok or not filtered.ok:
